@@ -395,7 +395,9 @@ theorem f64_f128_agree_from_int (m v : Int) (hm : Mult m) (k : Kind) (hk : k ∈
   rw [F64.fromInt_eq hv hp, F128.fromInt_eq hk hm hkv]; exact ⟨rfl, rfl⟩
 
 /-- integer `As`: the same answer for EVERY common raw value and every target kind — also when the integer part does
-    not fit the target kind and Go's conversion wraps (no `fitsKind` hypothesis) -/
+    not fit the target kind and Go's conversion wraps (no `fitsKind` hypothesis).  The wrapping part is a statement about
+    the MODEL: `as` lines whose integer part does not fit the target kind are outside the property, run in the stream
+    `fxwrap` (model drift only, never a violation) and are not in the twin comparison -/
 theorem f64_f128_agree_as_int (m a : Int) (hm : Mult m) (k : Kind) (ha : fits64 a) :
     F64.asInt k m a = F128.asInt k m a := by
   unfold F64.asInt F128.asInt F64.quo
@@ -501,6 +503,18 @@ theorem f128_from_float_bound (p : Nat × Int) (hp : p ∈ Facts.fixedConfigs) (
   have hmq : (0 : ℚ) < (p.2 : ℚ) := by exact_mod_cast hm.pos
   refine ⟨hb, lt_of_le_of_lt hb ?_⟩
   exact div_lt_div_of_pos_right (by norm_num) hmq
+
+/-- the domain of `f128_from_float_bound` / `f128_from_float32_bound` stated on the INPUT: every finite float (float32
+    arguments included, `x = decode32 n`) whose scaled magnitude `|x|·mult` stays two raw units below `2^127` converts,
+    and not to a saturated value — so the hypotheses `minRaw < r < maxRaw` of those theorems hold for it -/
+theorem f128_from_float_defined (p : Nat × Int) (hp : p ∈ Facts.fixedConfigs) (s : Bool) (mx : Nat) (ex : Int)
+    (hb : |fval (.fin s mx ex)| * p.2 + 2 ≤ 2 ^ 127) :
+    ∃ r, F128.fromFloat p.2 p.1 (.fin s mx ex) = some r ∧ F128.minRaw < r ∧ r < F128.maxRaw := by
+  apply f128_from_defined p hp s mx ex
+  have h0 : (0 : ℚ) ≤ (mx : ℚ) * (2 : ℚ) ^ ex := mul_nonneg (Nat.cast_nonneg _) (le_of_lt (zp_pos ex))
+  have e : |fval (.fin s mx ex)| = (mx : ℚ) * (2 : ℚ) ^ ex := by
+    unfold fval; rw [abs_sgn_mul, abs_of_nonneg h0]
+  rw [e] at hb; exact hb
 
 /-- f128 `As` to float64 (quotient rounded to 128 bits, then to 53): finite for every raw value, and within one part
     in 2^52 of the value — sharper: `2^-53·(1 + 2^-128) + 2^-128` -/
